@@ -38,9 +38,15 @@ CHECKS = {
  'C14': dict(cat='model_checking', tech='generated element trees (C08 generator) with one post-construction edit, deep-copied and compared; one further edit for independence',
              text='Per element class: document variants x one post-construction edit (attribute set later / overwritten / removed, value changed, xsd_check off, child added / removed) -> deepcopy -> same serialisation, original unchanged, xsd_check kept, then independence under one more edit of either tree.',
              note='finite enumeration of edits; shapes and values from the reference model via z3; bounded to single edits', ref='3 C14'),
+ 'C17': dict(cat='model_checking', tech='environment harness: open() as seen from the library replaced by an in-memory file system; default text encoding, code point, fault position, prior file state and intelligent_choice are z3-enumerated decisions; atomicity asserted by a z3 query over a symbolic prior content',
+             text='write(), parse_musicxml() and the import-time block of generate_classes/utils.py are executed under every combination of locale encoding (4), code point class (5), fault position (each node of a small score made invalid in turn) and prior destination state (7); a raising write must leave the file as it was for every prior content, a returning one must leave exactly declaration + to_string() in UTF-8.',
+             note='open() stub contract (w truncates at open; no encoding= means locale encoding); codecs executed; ASCII/UTF-8 replayed in real subprocesses, Latin-1/cp1252 only under the stub', ref='3 C17'),
  'C19': dict(cat='model_checking', tech='exception / output / time monitor over z3-driven symbolic histories on the real code with the widest operand ranges',
              text='Every exception escaping a public call in the explored histories is classified as documented or internal, stdout/stderr are captured per call and each path runs under a timer.',
              note=F1NOTE + '; TypeError/ValueError treated as documented everywhere', ref='3 C19'),
+ 'C20': dict(cat='model_checking', tech='bounded model checking (z3) of a two-thread transition system extracted from the AST of every lazy-initialisation site in the current source; sat schedules replayed with real threads under a settrace scheduler',
+             text='Every function with the lazy-initialisation idiom on a shared cell is linearised into line-granular steps; z3 searches all schedules of two threads with <= 2 (3) context switches for one in which a thread observes a shorter or unfinished table; each schedule found is replayed on the real code for the classes that reach the site and counts only if a thread\'s result differs from its single-threaded result.',
+             note='model covers only the AST-recognised idiom, line granularity, two threads; exclusive branches concatenated (over-approximation)', ref='3 C20'),
 }
 NA = {}
 allp = [json.loads(l)['id'] for l in open(os.path.join(root, 'properties.jsonl'))]
